@@ -674,7 +674,7 @@ func (fx *FnExec) copyBuiltin(fr *frame, st *State, cc *ssa.CallCommon, args []V
 	fx.arrayUpdated(darr, narr, dst.Off, n)
 	if src.Sort == byteArr {
 		// the copied window denotes the same abstract byte string as its source
-		fx.assumeGlobal(c.Eq(fx.rngTerm(narr, dst.Off, n), fx.rngTerm(src, soff, n)))
+		fx.assumeGlobal(c.Eq(fx.rngTermRef(narr, dst.Off, n, dst.Ref), fx.rngTermRef(src, soff, n, srcRef)))
 	}
 	return n
 }
